@@ -48,20 +48,13 @@ Proof.
   rewrite H in K. rewrite G in K. discriminate.
 Qed.
 
-(* r = a = [] (n = 2), divisor 0: VdivS divides every position (integer types: panics; float types: NaN
-   everywhere), VDIVS visits the stored entries only (nothing happens) *)
+(* r = a = [] (n = 2), divisor 0: the round-1 witness of the retired finding F-C09-VDIVS-ZERO.  VdivS divides every
+   position (integer types: panics; float types: NaN everywhere); VDIVS had its own joint loop over the stored entries
+   (nothing happened); since 5abb77d it calls VdivS: both members agree *)
 Definition w_div : w3 := run3 TInt init3 [NewS [] [] 2; NewS [] [] 2].
-Lemma sparse_VDIVS_zero_refuted_int : ~ vector_interchangeable TInt true (VPdivS 0 1 0).
-Proof.
-  intros H. specialize (H w_div).
-  assert (G : fst (snd (step_generic TInt true w_div (VPdivS 0 1 0))) = K_PANIC) by (vm_compute; reflexivity).
-  assert (K : fst (snd (step_concrete TInt true w_div (VPdivS 0 1 0))) = K_OK) by (vm_compute; reflexivity).
-  rewrite H in K. rewrite G in K. discriminate.
-Qed.
-Lemma sparse_VDIVS_zero_refuted_float : ~ vector_interchangeable TFloat true (VPdivS 0 1 0).
-Proof.
-  intros H. specialize (H w_div).
-  assert (G : C03.Model.rd (fst (step_generic TFloat true w_div (VPdivS 0 1 0))) (RS 0) 0 = NAN) by (vm_compute; reflexivity).
-  assert (K : C03.Model.rd (fst (step_concrete TFloat true w_div (VPdivS 0 1 0))) (RS 0) 0 = 0) by (vm_compute; reflexivity).
-  rewrite H in K. rewrite G in K. discriminate.
-Qed.
+Lemma sparse_VDIVS_zero_witness_agrees :
+  fst (snd (step_generic TInt true w_div (VPdivS 0 1 0))) = K_PANIC /\
+  fst (snd (step_concrete TInt true w_div (VPdivS 0 1 0))) = K_PANIC /\
+  C03.Model.rd (fst (step_generic TFloat true w_div (VPdivS 0 1 0))) (RS 0) 0 = NAN /\
+  C03.Model.rd (fst (step_concrete TFloat true w_div (VPdivS 0 1 0))) (RS 0) 0 = NAN.
+Proof. vm_compute. repeat split; reflexivity. Qed.
